@@ -48,3 +48,6 @@ import Bmc.Proofs.EndToEnd.EnumC16
 #print axioms Bmc.Proofs.EndToEnd.generated_RetrieveSupportedCipherSuites_complete
 #print axioms Bmc.Proofs.EndToEnd.instLoop_congr
 #print axioms Bmc.Proofs.EndToEnd.generated_getEntityInstances_pages
+#print axioms Bmc.Proofs.EndToEnd.sensorMapLoop_congr
+#print axioms Bmc.Proofs.EndToEnd.getSensorInfo_congr
+#print axioms Bmc.Proofs.EndToEnd.generated_GetSensorInfo_std
